@@ -166,6 +166,11 @@ def d3_collect_accounting(ctx, rm: REModel, rule="C05.D3-collect-advances-by-ind
 
 def run(ctx):
     rm = REModel(ctx.repo)
+    # the counter snapshot is refreshed by every checkpoint reset that is not skipped for "no checkpoint in effect" (seed C05-c: skipped on an
+    # EMPTY cache, i.e. whenever the engine had been running non-rewindable)
+    from . import c04
+
+    c04.reset_skipped_only_without_checkpoint(ctx, rm, "C05.D4-reset-shape")
     ctx.explanation = (
         "Decided: D1 RunBundler.rewind bulk-restores counters from the checkpoint snapshot but keeps the live counters of the "
         "streams registered as never replayed, and every never-replayed emitter (interruptions descriptor, monitor, declared and "
